@@ -24,6 +24,7 @@ type Prog struct {
 	ssa     *ssa.Program
 	lay     *layouter
 	typeIDs map[string]int
+	idTypes map[int]types.Type // dynamic type id -> the type of the object (for backing arrays: the element type)
 	globals map[*ssa.Global]int
 	embed   map[string]bool                  // type strings of struct types that occur by value inside other types
 	holders map[string]map[string]types.Type // type string -> types that hold it by value (direct)
@@ -73,7 +74,7 @@ func loadProg(repoDir string, patterns []string) (*Prog, error) {
 	p := &Prog{
 		fset: pkgs[0].Fset, pkgs: pkgs, ssa: sp, lay: newLayouter(),
 		byPath:  map[string]*packages.Package{},
-		typeIDs: map[string]int{}, globals: map[*ssa.Global]int{}, embed: map[string]bool{}, holders: map[string]map[string]types.Type{},
+		typeIDs: map[string]int{}, idTypes: map[int]types.Type{}, globals: map[*ssa.Global]int{}, embed: map[string]bool{}, holders: map[string]map[string]types.Type{},
 		contracts: map[string]*Contract{}, specFuncs: map[string]*SpecFunc{},
 		counts: map[string][]string{}, countOf: map[string][]string{}, effFree: map[*ssa.Function]bool{},
 		repoDir: repoDir,
@@ -232,6 +233,7 @@ func (p *Prog) typeID(t types.Type) int {
 	}
 	id := len(p.typeIDs) + 1
 	p.typeIDs[s] = id
+	p.idTypes[id] = types.Unalias(t)
 	return id
 }
 
@@ -246,9 +248,55 @@ func (p *Prog) objID(t types.Type) int {
 		}
 		id := len(p.typeIDs) + 1
 		p.typeIDs[s] = id
+		p.idTypes[id] = types.Unalias(t).Underlying().(*types.Slice).Elem()
 		return id
 	}
 	return p.typeID(t)
+}
+
+// containsBasic reports whether an object of type t may hold, by value, a
+// component whose type is identical to the basic (or named basic) type b.
+// Pointers, slices, maps, interfaces and functions end the walk (what they
+// refer to lives in other objects); unknown shapes answer true.
+func (p *Prog) containsBasic(t types.Type, b types.Type, depth int) bool {
+	t = types.Unalias(t)
+	if types.Identical(t, b) {
+		return true
+	}
+	if depth > 8 {
+		return true
+	}
+	switch u := t.Underlying().(type) {
+	case *types.Basic:
+		return types.Identical(t.Underlying(), b.Underlying()) && types.Identical(t, b)
+	case *types.Struct:
+		for i := 0; i < u.NumFields(); i++ {
+			if p.containsBasic(u.Field(i).Type(), b, depth+1) {
+				return true
+			}
+		}
+		return false
+	case *types.Array:
+		return p.containsBasic(u.Elem(), b, depth+1)
+	case *types.Pointer, *types.Slice, *types.Map, *types.Chan, *types.Signature, *types.Interface:
+		return false
+	}
+	return true
+}
+
+// notHolding: the dynamic type ids registered so far whose objects cannot hold a b.
+func (p *Prog) notHolding(b types.Type) []int {
+	var out []int
+	for id, t := range p.idTypes {
+		if _, isMap := t.Underlying().(*types.Map); isMap {
+			continue // map objects are not addressable memory
+		}
+		if !p.containsBasic(t, b, 0) {
+			out = append(out, id)
+		}
+	}
+	sort.Ints(out)
+	return out
 }
 
 func (p *Prog) globalRef(g *ssa.Global) int {
